@@ -190,94 +190,95 @@ structure SameLatest (t t' : Tx) : Prop where
     needs a faulting oracle *and* a final handler in flight; a final-phase call
     reports failure only after a fault. -/
 theorem processHandlers_spec (orc : Oracle) (hF : OrcF F orc) (name : HName) :
-    ∀ (fuel b : Nat) (m : Mach) (t : Tx) (pk : Bool),
+    ∀ (live : List Nat) (m : Mach) (t : Tx) (pk : Bool),
     (t.latestIsFinal = true → FinalOk t) →
-    HChg (F ∧ t.latestIsFinal = true) m (processHandlers orc name fuel b m t pk).1 ∧
-    SameTx t (processHandlers orc name fuel b m t pk).2.1 ∧
-    SameLatest t (processHandlers orc name fuel b m t pk).2.1 ∧
+    HChg (F ∧ t.latestIsFinal = true) m (processHandlers orc name live m t pk).1 ∧
+    SameTx t (processHandlers orc name live m t pk).2.1 ∧
+    SameLatest t (processHandlers orc name live m t pk).2.1 ∧
     (name.isFinalName = true →
-      ((processHandlers orc name fuel b m t pk).2.2.res = false ∨
-       (processHandlers orc name fuel b m t pk).2.2.panicked = true) → pk = true ∨ F) := by
-  intro fuel
-  induction fuel with
-  | zero =>
-    intro b m t pk _
+      ((processHandlers orc name live m t pk).2.2.res = false ∨
+       (processHandlers orc name live m t pk).2.2.panicked = true) → pk = true ∨ F) := by
+  intro live
+  induction live with
+  | nil =>
+    intro m t pk _
     refine ⟨HChg.refl m, SameTx.refl t, ⟨rfl, rfl, rfl⟩, ?_⟩
     intro _ h
     simp only [processHandlers] at h
     rcases h with h | h
     · exact absurd h (by simp)
     · exact Or.inl h
-  | succ n ih =>
-    intro b m t pk hok
-    have base : ∀ (m' : Mach), HChg (F ∧ t.latestIsFinal = true) m m' →
-        HChg (F ∧ t.latestIsFinal = true) m m' ∧ SameTx t t ∧ SameLatest t t ∧
-        (name.isFinalName = true → ((true = false) ∨ pk = true) → pk = true ∨ F) :=
-      fun m' c => ⟨c, SameTx.refl t, ⟨rfl, rfl, rfl⟩, fun _ h => by
-        rcases h with h | h
-        · exact absurd h (by simp)
-        · exact Or.inl h⟩
+  | cons b rest ih =>
+    intro m t pk hok
     simp only [processHandlers]
     split
-    · exact base m (HChg.refl m)
-    · split
-      · exact ih _ _ _ _ hok
-      · rename_i beh horc
+    · exact ih _ _ _ hok
+    · rename_i beh horc
+      split
+      · split
+        · exact ih _ _ _ hok
+        · rename_i hnf
+          refine ⟨HChg.refl m, SameTx.refl t, ⟨rfl, rfl, rfl⟩, ?_⟩
+          intro hfin; exact absurd hfin hnf
+      · have g1 : HChg (F ∧ t.latestIsFinal = true) m (beh.muts.foldl (fun mm r => issueLogged mm r)
+            ((bumpCount m (b, name)).emit (.h b name m.active))) :=
+          ((chg_bump m _).trans (chg_emit _ _)).trans (chg_foldl_issue _ _)
         split
-        · split
-          · exact ih _ _ _ _ hok
-          · rename_i hnf
-            refine ⟨HChg.refl m, SameTx.refl t, ⟨rfl, rfl, rfl⟩, ?_⟩
-            intro hfin; exact absurd hfin hnf
-        · have g1 : HChg (F ∧ t.latestIsFinal = true) m (beh.muts.foldl (fun mm r => issueLogged mm r)
-              ((bumpCount m (b, name)).emit (.h b name m.active))) :=
-            ((chg_bump m _).trans (chg_emit _ _)).trans (chg_foldl_issue _ _)
+        · rename_i okv hact
           split
-          · rename_i okv hact
-            split
-            · obtain ⟨h1, h2, h3, h4⟩ := ih (b + 1) (beh.muts.foldl (fun mm r => issueLogged mm r)
-                ((bumpCount m (b, name)).emit (.h b name m.active))) t pk hok
-              exact ⟨g1.trans h1, h2, h3, h4⟩
-            · rename_i hcond
-              refine ⟨g1, SameTx.refl t, ⟨rfl, rfl, rfl⟩, ?_⟩
-              intro hfin
-              simp [hfin] at hcond
-          · rename_i hact
-            have f : F := hF b name _ beh horc (Or.inr hact)
-            exact ⟨g1.trans (chg_emit _ _), SameTx.refl t, ⟨rfl, rfl, rfl⟩, fun _ _ => Or.inr f⟩
-          · rename_i hact
-            have f : F := hF b name _ beh horc (Or.inl hact)
-            have hr : HChg (F ∧ t.latestIsFinal = true)
-                (beh.muts.foldl (fun mm r => issueLogged mm r)
-                  ((bumpCount m (b, name)).emit (.h b name m.active)))
-                (recoverToErr (beh.muts.foldl (fun mm r => issueLogged mm r)
-                  ((bumpCount m (b, name)).emit (.h b name m.active))) t).1 := by
-              by_cases hfin : t.latestIsFinal = true
-              · exact recoverToErr_chg _ t ⟨f, hfin⟩ hok
-              · exact (recoverToErr_quiet _ t (by simpa using hfin)).weaken (fun x => x.elim)
-            obtain ⟨e1, e2, e3, e4, e5, e6, e7, e8, e9, e10⟩ := recoverToErr_tx
+          · obtain ⟨h1, h2, h3, h4⟩ := ih (beh.muts.foldl (fun mm r => issueLogged mm r)
+              ((bumpCount m (b, name)).emit (.h b name m.active))) t pk hok
+            exact ⟨g1.trans h1, h2, h3, h4⟩
+          · rename_i hcond
+            refine ⟨g1, SameTx.refl t, ⟨rfl, rfl, rfl⟩, ?_⟩
+            intro hfin
+            simp [hfin] at hcond
+        · rename_i d hact
+          obtain ⟨h1, h2, h3, h4⟩ := ih (markDetached (beh.muts.foldl (fun mm r => issueLogged mm r)
+              ((bumpCount m (b, name)).emit (.h b name m.active))) d) t pk hok
+          have gd : HChg (F ∧ t.latestIsFinal = true)
               (beh.muts.foldl (fun mm r => issueLogged mm r)
-                ((bumpCount m (b, name)).emit (.h b name m.active))) t
-            have st : SameTx t (recoverToErr (beh.muts.foldl (fun mm r => issueLogged mm r)
-              ((bumpCount m (b, name)).emit (.h b name m.active))) t).2 := ⟨e1, e5, e6, e7, e8, e9, e10⟩
-            have sl : SameLatest t (recoverToErr (beh.muts.foldl (fun mm r => issueLogged mm r)
-              ((bumpCount m (b, name)).emit (.h b name m.active))) t).2 := ⟨e2, e3, e4⟩
-            split
-            · have hok' : (recoverToErr (beh.muts.foldl (fun mm r => issueLogged mm r)
-                  ((bumpCount m (b, name)).emit (.h b name m.active))) t).2.latestIsFinal = true →
-                  FinalOk (recoverToErr (beh.muts.foldl (fun mm r => issueLogged mm r)
-                  ((bumpCount m (b, name)).emit (.h b name m.active))) t).2 := by
-                intro hf
-                rw [e4] at hf
-                unfold FinalOk
-                rw [e3, e2]
-                exact hok hf
-              obtain ⟨h1, h2, h3, _⟩ := ih (b + 1) _ _ true hok'
-              rw [e4] at h1
-              exact ⟨(g1.trans hr).trans h1, st.trans h2,
-                ⟨h3.to.trans sl.to, h3.isEnter.trans sl.isEnter, h3.isFinal.trans sl.isFinal⟩,
-                fun _ _ => Or.inr f⟩
-            · exact ⟨g1.trans hr, st, sl, fun _ _ => Or.inr f⟩
+                ((bumpCount m (b, name)).emit (.h b name m.active)))
+              (markDetached (beh.muts.foldl (fun mm r => issueLogged mm r)
+                ((bumpCount m (b, name)).emit (.h b name m.active))) d) :=
+            HChg.of_eq rfl rfl rfl rfl
+          exact ⟨(g1.trans gd).trans h1, h2, h3, h4⟩
+        · rename_i hact
+          have f : F := hF b name _ beh horc (Or.inr hact)
+          exact ⟨g1.trans (chg_emit _ _), SameTx.refl t, ⟨rfl, rfl, rfl⟩, fun _ _ => Or.inr f⟩
+        · rename_i hact
+          have f : F := hF b name _ beh horc (Or.inl hact)
+          have hr : HChg (F ∧ t.latestIsFinal = true)
+              (beh.muts.foldl (fun mm r => issueLogged mm r)
+                ((bumpCount m (b, name)).emit (.h b name m.active)))
+              (recoverToErr (beh.muts.foldl (fun mm r => issueLogged mm r)
+                ((bumpCount m (b, name)).emit (.h b name m.active))) t).1 := by
+            by_cases hfin : t.latestIsFinal = true
+            · exact recoverToErr_chg _ t ⟨f, hfin⟩ hok
+            · exact (recoverToErr_quiet _ t (by simpa using hfin)).weaken (fun x => x.elim)
+          obtain ⟨e1, e2, e3, e4, e5, e6, e7, e8, e9, e10⟩ := recoverToErr_tx
+            (beh.muts.foldl (fun mm r => issueLogged mm r)
+              ((bumpCount m (b, name)).emit (.h b name m.active))) t
+          have st : SameTx t (recoverToErr (beh.muts.foldl (fun mm r => issueLogged mm r)
+            ((bumpCount m (b, name)).emit (.h b name m.active))) t).2 := ⟨e1, e5, e6, e7, e8, e9, e10⟩
+          have sl : SameLatest t (recoverToErr (beh.muts.foldl (fun mm r => issueLogged mm r)
+            ((bumpCount m (b, name)).emit (.h b name m.active))) t).2 := ⟨e2, e3, e4⟩
+          split
+          · have hok' : (recoverToErr (beh.muts.foldl (fun mm r => issueLogged mm r)
+                ((bumpCount m (b, name)).emit (.h b name m.active))) t).2.latestIsFinal = true →
+                FinalOk (recoverToErr (beh.muts.foldl (fun mm r => issueLogged mm r)
+                ((bumpCount m (b, name)).emit (.h b name m.active))) t).2 := by
+              intro hf
+              rw [e4] at hf
+              unfold FinalOk
+              rw [e3, e2]
+              exact hok hf
+            obtain ⟨h1, h2, h3, _⟩ := ih _ _ true hok'
+            rw [e4] at h1
+            exact ⟨(g1.trans hr).trans h1, st.trans h2,
+              ⟨h3.to.trans sl.to, h3.isEnter.trans sl.isEnter, h3.isFinal.trans sl.isFinal⟩,
+              fun _ _ => Or.inr f⟩
+          · exact ⟨g1.trans hr, st, sl, fun _ _ => Or.inr f⟩
 
 /-- `handle` in projection form. -/
 theorem handle_proj (orc : Oracle) (hF : OrcF F orc) (m : Mach) (t : Tx) (name : HName)
@@ -289,20 +290,20 @@ theorem handle_proj (orc : Oracle) (hF : OrcF F orc) (m : Mach) (t : Tx) (name :
     (handle orc m t name to isFinal isEnter).2.1.latestIsFinal = isFinal ∧
     (name.isFinalName = true → (handle orc m t name to isFinal isEnter).2.2 = false → F) := by
   simp only [handle]
-  obtain ⟨g, st, sl, hf⟩ := processHandlers_spec orc hF name m.nbind 0 m
+  obtain ⟨g, st, sl, hf⟩ := processHandlers_spec orc hF name m.live m
     { t with latestTo := to, latestIsEnter := isEnter, latestIsFinal := isFinal } false
     (by intro hf; exact h hf)
   refine ⟨g, ⟨st.target, st.mu, st.before, st.enters, st.exits, st.timeBefore, st.timeAfter⟩,
     sl.to, sl.isEnter, sl.isFinal, ?_⟩
   intro hn hfalse
-  have : (processHandlers orc name m.nbind 0 m
+  have : (processHandlers orc name m.live m
       { t with latestTo := to, latestIsEnter := isEnter, latestIsFinal := isFinal } false).2.2.res = false ∨
-    (processHandlers orc name m.nbind 0 m
+    (processHandlers orc name m.live m
       { t with latestTo := to, latestIsEnter := isEnter, latestIsFinal := isFinal } false).2.2.panicked = true := by
     revert hfalse
-    cases (processHandlers orc name m.nbind 0 m
+    cases (processHandlers orc name m.live m
       { t with latestTo := to, latestIsEnter := isEnter, latestIsFinal := isFinal } false).2.2.res <;>
-    cases (processHandlers orc name m.nbind 0 m
+    cases (processHandlers orc name m.live m
       { t with latestTo := to, latestIsEnter := isEnter, latestIsFinal := isFinal } false).2.2.panicked <;> simp
   rcases hf hn this with h | h
   · exact absurd h (by simp)
